@@ -142,9 +142,11 @@ obs_t observe(const solver_state_t& state, const vector_t& coeffs, bool ret, int
         {
             v = MAXV;
         }
-        else if (!vt::to_lattice(d, 1.0, v))
+        else if (!vt::to_lattice(d, 1.0, v) || v < 0)
         {
-            o.exact = false;
+            // not a lattice value (another norm, another rule): a deviation from the transcription, never equal to a value of the
+            // specification; what C02 demands does not depend on it (a negative or non-finite test value is reported as such)
+            v = (std::isfinite(d) && d >= 0.0) ? MAXV - 1 : -1;
         }
         o.vt.push_back(v);
     }
@@ -168,6 +170,18 @@ bool apply(solver_state_t& state, const vector_t& coeffs, const call_t& c, uint6
         return state.update(x, gx, fx);
     }
     return c.wg ? state.update_if_better(x, gx, fx) : state.update_if_better(x, fx);
+}
+
+void emit_event(const char* e, const call_t& c, const obs_t& o, const tensor_size_t dims, const int64_t dev = -1)
+{
+    auto j = vt::J(e);
+    j.i("p", c.p).i("v", c.v).b("nf", c.nf).b("wg", c.wg).b("ret", o.ret).b("valid", o.valid && o.exact).i("x", o.x).i("fx", o.fx);
+    j.a("g", std::vector<int64_t>{o.gp, o.gv}).a("vt", o.vt).i("dims", dims);
+    if (dev >= 0)
+    {
+        j.i("dev", dev);
+    }
+    vt::put(j);
 }
 
 int run_table(const char* table, const char* out)
@@ -283,6 +297,15 @@ int run_table(const char* table, const char* out)
                              << " v=" << (e.call.nf ? std::string("non-finite") : std::to_string(e.call.v)) << " dims=" << dims;
                         vt::put(vt::J("Mismatch").s("where", call.str()).s("from", nodes.at(a).obs.str()).s("spec", want.str()).s("impl", o.str()));
                     }
+                    if (mismatches <= 60)
+                    {
+                        // the deviating step as a two-record history (the real source state, the real call and its real outcome) for SolverStateWeak.tla
+                        call_t none;
+                        none.p = nodes.at(a).obs.x;
+                        none.v = nodes.at(a).obs.fx;
+                        emit_event("Reset", none, observe(source, coeffs, false, npat), dims, static_cast<int64_t>(mismatches));
+                        emit_event(e.call.kind == 'S' ? "Set" : "Offer", e.call, o, dims, static_cast<int64_t>(mismatches));
+                    }
                 }
                 if (objects.find(e.to) == objects.end())
                 {
@@ -316,13 +339,7 @@ int run_random(const char* out, uint64_t seed, int nexec)
         const auto regime = rng.range(0, 4);
         auto       last   = f0;
 
-        const auto emit = [&](const char* e, const call_t& c, const obs_t& o)
-        {
-            auto j = vt::J(e);
-            j.i("p", c.p).i("v", c.v).b("nf", c.nf).b("wg", c.wg).b("ret", o.ret).b("valid", o.valid && o.exact).i("x", o.x).i("fx", o.fx);
-            j.a("g", std::vector<int64_t>{o.gp, o.gv}).a("vt", o.vt).i("dims", dims);
-            vt::put(j);
-        };
+        const auto emit = [&](const char* e, const call_t& c, const obs_t& o) { emit_event(e, c, o, dims); };
         {
             call_t c;
             c.p = x0;
